@@ -537,7 +537,7 @@ def unextract(cur_trees, ref_names):
     return u.run()
 
 
-def fully_inlined(program, func, depth=3):
+def fully_inlined(program, func, depth=3, as_class=None):
     """Copy of a function of the model with its calls of private methods / functions of the package written out (to `depth`):
     what the function does, whatever the way its body was cut into helpers.  Used to compare siblings whose helpers were
     merged or inlined on one side only."""
@@ -545,7 +545,7 @@ def fully_inlined(program, func, depth=3):
     u = Unextractor(trees, set(), is_helper=lambda name: name.startswith("_") and not name.startswith("__"), carry=False)
     u.collect()
     node = copy.deepcopy(func.node)
-    cname = func.cls.name if func.cls is not None else None
+    cname = as_class or (func.cls.name if func.cls is not None else None)      # as_class: read the method as this subclass runs it
     for _ in range(depth):
         before = len(u.inlined)
         node.body = u.rewrite_block(node.body, func.module.name, cname, func.node)
